@@ -12,6 +12,13 @@
 // reports as an error status (not "no match", no offer), the sid was never registered, both
 // heaps are empty and a client offer sent afterwards is denied for lack of proxies.
 // Anything else is printed verbatim (and so disagrees with the model).
+//
+//   namematcher pollseq <allowed> <presumed> <ev,ev,...>
+//
+// A history: ONE BrokerContext (one matching goroutine) lives through the whole line and is sent
+// the events in order; ev = s<pattern> | l | n (a poll as above) or c<allowed>;<presumed>
+// (InstallBridgeListProfile with new patterns, as on SIGHUP).  Result: the comma list of the
+// per-event results ("installed" for c), each poll observed exactly as in the single-shot case.
 package main
 
 import (
@@ -81,13 +88,55 @@ func verifC06ClientOffer(i *IPC, sdp string, nat string) (answer string, errText
 
 var verifC06Seq int
 
-func verifC06Poll(allowed, presumed, kind, pattern string) string {
+func verifC06NewContext(allowed, presumed string) *BrokerContext {
 	ctx := NewBrokerContext(log.New(io.Discard, "", 0))
 	if err := ctx.InstallBridgeListProfile(strings.NewReader(verifC06Bridges), allowed, presumed); err != nil {
 		panic(err)
 	}
 	go ctx.Broker()
+	return ctx
+}
+
+func verifC06Poll(allowed, presumed, kind, pattern string) string {
+	ctx := verifC06NewContext(allowed, presumed)
 	defer close(ctx.proxyPolls)
+	return verifC06PollOn(ctx, kind, pattern)
+}
+
+// a history of polls and re-configurations on one long-lived broker context
+func verifC06PollSeq(allowed, presumed string, events []string) string {
+	ctx := verifC06NewContext(allowed, presumed)
+	defer close(ctx.proxyPolls)
+	var out []string
+	for _, ev := range events {
+		if ev == "" {
+			return "!badcase"
+		}
+		switch ev[0] {
+		case 's':
+			out = append(out, verifC06PollOn(ctx, "s", verifC06Str(ev[1:])))
+		case 'l', 'n':
+			if len(ev) != 1 {
+				return "!badcase"
+			}
+			out = append(out, verifC06PollOn(ctx, ev, ""))
+		case 'c':
+			ps := strings.Split(ev[1:], ";")
+			if len(ps) != 2 {
+				return "!badcase"
+			}
+			if err := ctx.InstallBridgeListProfile(strings.NewReader(verifC06Bridges), verifC06Str(ps[0]), verifC06Str(ps[1])); err != nil {
+				panic(err)
+			}
+			out = append(out, "installed")
+		default:
+			return "!badcase"
+		}
+	}
+	return wire.PrintList(out)
+}
+
+func verifC06PollOn(ctx *BrokerContext, kind, pattern string) string {
 	i := &IPC{ctx}
 	verifC06Seq++
 	sid := fmt.Sprintf("verif-sid-%d", verifC06Seq)
@@ -212,6 +261,9 @@ func TestVerifDriverC06(t *testing.T) {
 	wire.Loop(func(args []string) string {
 		if len(args) == 5 && args[0] == "poll" {
 			return verifC06Poll(verifC06Str(args[1]), verifC06Str(args[2]), args[3], verifC06Str(args[4]))
+		}
+		if len(args) == 4 && args[0] == "pollseq" {
+			return verifC06PollSeq(verifC06Str(args[1]), verifC06Str(args[2]), wire.List(args[3]))
 		}
 		return "!badcase"
 	})
